@@ -203,6 +203,7 @@ func H_C09_struct() {
 	verifAssert(in.Pub == snap.Pub && in.Sens == snap.Sens && in.Sec == snap.Sec && in.SensR == snap.SensR && in.SecH == snap.SecH &&
 		in.Mixed == snap.Mixed && in.BadOp == snap.BadOp && in.Untag == snap.Untag && string(in.Bytes) == snapBytes && in.Num == snap.Num, "C10.struct.original-untouched")
 	verifAssert(verifSame(e.Payload, any(in)), "C10.struct.original-event-untouched")
+	originalFormatKept(e, "C10.struct")
 	if c.o.allNone() {
 		verifAssert(err == nil && out == e, "C10.struct.all-none-forwards-the-same-event")
 		verifReach("C10.struct.allnone")
@@ -358,6 +359,7 @@ func H_C09_toplevel() {
 	if refs != nil {
 		verifAssert(refs.Inner.Sec == a && refs.List[0] == b && refs.M["k"].(string) == a, "C10.toplevel.by-value-struct-references-untouched")
 	}
+	originalFormatKept(e, "C10.toplevel")
 	if c.o.allNone() || (c.w == nil && c.o.needsWrapper()) {
 		return
 	}
